@@ -1,4 +1,5 @@
 from pyvc.contracts import Contract, Loop
+from . import collab
 
 D = "xsdata.utils.dates"
 DT = "xsdata.models.datatype"
@@ -80,6 +81,8 @@ def register(db):
     register_from_string_acceptance(db)
     register_period_acceptance(db)
     register_period_rejection(db)
+    register_stdlib_conversions(db)
+    register_from_stdlib(db)
     FROM = [
         ("XmlDate", ["valid_date(result.year, result.month, result.day)"]),
         ("XmlTime", ["valid_time(result.hour, result.minute, result.second, result.fractional_second)"]),
@@ -573,3 +576,131 @@ def register_period_rejection(db):
                   "valid_date(0, ite(result.month is None, 1, result.month), ite(result.day is None, 1, result.day))")],
         raises={"ValueError": True}, properties=["C06", "C15"],
     ))
+
+
+def register_stdlib_conversions(db):
+    """to_datetime / to_time / to_date and calculate_timezone: the standard-library constructor receives the value's
+    *own* components (microseconds = nanoseconds // 1000, the offset in minutes as a fixed-offset timezone).  A value
+    the standard library cannot represent (24:00:00, year < 1) is then refused by that constructor with ValueError -
+    it is never mapped to a different instant.  The constructors of `datetime` are modelled as plain records of their
+    arguments (their range checks are C code, outside the model)."""
+    PR = ["C06"]
+    DATES = "xsdata.utils.dates"
+
+    def record(fields):
+        def ctor(ex, st, cref, args, kwargs):
+            from pyvc.values import Obj
+            o = Obj(f"{cref.module}:{cref.qualname}", dict(zip(fields, args)))
+            for f in fields[len(args):]:
+                o.fields[f] = kwargs.get(f, 0 if f != "tzinfo" else None)
+            unknown = set(kwargs) - set(fields)
+            if unknown:
+                raise __import__("pyvc.engine", fromlist=["Unsupported"]).Unsupported(f"{cref.qualname}: keyword {sorted(unknown)}")
+            yield st, st.alloc(o)
+        return ctor
+
+    db.ctors[("datetime", "datetime")] = record(["year", "month", "day", "hour", "minute", "second", "microsecond", "tzinfo"])
+    db.ctors[("datetime", "time")] = record(["hour", "minute", "second", "microsecond", "tzinfo"])
+    db.ctors[("datetime", "date")] = record(["year", "month", "day"])
+    db.ctors[("datetime", "timedelta")] = record(["days", "seconds", "microseconds", "milliseconds", "minutes", "hours", "weeks"])
+    db.ctors[("datetime", "timezone")] = record(["offset", "name"])
+    import z3
+    from pyvc.values import Opaque, z3sort
+    if not hasattr(db, "class_consts"):
+        db.class_consts = {}
+    db.class_consts[("datetime", "timezone", "utc")] = Opaque("tzinfo", z3.Const("datetime_timezone_utc", z3sort(("u", "tzinfo"))))
+    db.inline.add(f"{DT}:XmlDateTime.microsecond")
+    db.inline.add(f"{DT}:XmlTime.microsecond")
+
+    def xml_time(mk, base):
+        o = mk.obj(f"{DT}:XmlTime", {"hour": "int", "minute": "int", "second": "int", "fractional_second": "int", "offset": "int|None"})
+        mk.st.deref(o).structural = True
+        mk.st.deref(o).tuple_fields = ["hour", "minute", "second", "fractional_second", "offset"]
+        return o
+
+    def xml_datetime(mk, base):
+        o = mk.obj(f"{DT}:XmlDateTime", {"year": "int", "month": "int", "day": "int", "hour": "int", "minute": "int",
+                                        "second": "int", "fractional_second": "int", "offset": "int|None"})
+        mk.st.deref(o).structural = True
+        mk.st.deref(o).tuple_fields = ["year", "month", "day", "hour", "minute", "second", "fractional_second", "offset"]
+        return o
+
+    def xml_date(mk, base):
+        o = mk.obj(f"{DT}:XmlDate", {"year": "int", "month": "int", "day": "int", "offset": "int|None"})
+        mk.st.deref(o).structural = True
+        mk.st.deref(o).tuple_fields = ["year", "month", "day", "offset"]
+        return o
+
+    db.add(Contract(
+        f"{DATES}:calculate_timezone", variant="no-offset", params={"offset": None},
+        ensures=[("naive", "result is None")], raises={}, properties=PR))
+    db.add(Contract(
+        f"{DATES}:calculate_timezone", variant="fixed-offset", params={"offset": "int"},
+        ensures=[("utc-for-zero", "implies(offset == 0, result is datetime.timezone.utc)"),
+                 ("fixed-offset-of-that-many-minutes", "implies(offset != 0, result.offset.minutes == offset and result.offset.days == 0 "
+                                                       "and result.offset.seconds == 0 and result.offset.hours == 0)")],
+        raises={}, properties=PR))
+    TZ = "uf('calculate_timezone', 'u:tzinfo|None', offset)"
+    db.add(Contract(f"{DATES}:calculate_timezone", variant="call-view", trusted=True, call_default=True, params={},
+                    returns="u:tzinfo|None", raises={}, call_ensures=[f"result == {TZ}"],
+                    note="call-site view: the timezone object is a function of the offset (the function itself is verified above)"))
+    SAME_TZ = "result.tzinfo == uf('calculate_timezone', 'u:tzinfo|None', self.offset)"
+    db.add(Contract(
+        f"{DT}:XmlDateTime.to_datetime", params={"self": xml_datetime},
+        ensures=[("same-calendar-fields", "result.year == self.year and result.month == self.month and result.day == self.day"),
+                 ("same-time-of-day", "result.hour == self.hour and result.minute == self.minute and result.second == self.second"),
+                 ("microseconds-are-the-nanoseconds-truncated", "result.microsecond == self.fractional_second // 1000"),
+                 ("same-offset", SAME_TZ)],
+        raises={}, properties=PR,
+        note="datetime.datetime modelled as a record of its arguments; its own range check (ValueError) is outside the model"))
+    db.add(Contract(
+        f"{DT}:XmlTime.to_time", params={"self": xml_time},
+        ensures=[("same-time-of-day", "result.hour == self.hour and result.minute == self.minute and result.second == self.second"),
+                 ("microseconds-are-the-nanoseconds-truncated", "result.microsecond == self.fractional_second // 1000"),
+                 ("same-offset", SAME_TZ)],
+        raises={}, properties=PR))
+    db.add(Contract(
+        f"{DT}:XmlDate.to_date", params={"self": xml_date},
+        ensures=[("same-calendar-fields", "result.year == self.year and result.month == self.month and result.day == self.day")],
+        raises={}, properties=PR))
+
+
+def register_from_stdlib(db):
+    """from_datetime / from_time / from_date: the value takes the standard-library object's own components, microseconds
+    become nanoseconds (x 1000), the offset is the object's UTC offset in minutes (calculate_offset, call-site view)."""
+    PR = ["C06"]
+    for f in ("year", "month", "day", "hour", "minute", "second", "microsecond"):
+        collab.field(db, "StdDateTime", f, "int")
+    db.add(Contract("xsdata.utils.dates:calculate_offset", variant="call-view", trusted=True, call_default=True, params={},
+                    returns="int|None", raises={}, call_ensures=["result == uf('utc_offset_minutes', 'int|None', obj)"],
+                    note="assumed: the UTC offset of a standard-library object in whole minutes (timedelta arithmetic is C code)"))
+
+    def cls_of(name):
+        def mk_cls(mk, base):
+            from pyvc.values import ClassRef
+            return ClassRef("xsdata.models.datatype", name)
+        return mk_cls
+
+    OFF = "result.offset == uf('utc_offset_minutes', 'int|None', obj)"
+    db.add(Contract(
+        f"{DT}:XmlDateTime.from_datetime", params={"cls": cls_of("XmlDateTime"), "obj": "opaque:StdDateTime"},
+        ensures=[("same-calendar-fields", "result.year == obj.year and result.month == obj.month and result.day == obj.day"),
+                 ("same-time-of-day", "result.hour == obj.hour and result.minute == obj.minute and result.second == obj.second"),
+                 ("nanoseconds-are-the-microseconds-times-1000", "result.fractional_second == obj.microsecond * 1000"),
+                 ("same-offset", OFF)],
+        raises={}, properties=PR))
+    db.add(Contract(
+        f"{DT}:XmlTime.from_time", params={"cls": cls_of("XmlTime"), "obj": "opaque:StdDateTime"},
+        ensures=[("same-time-of-day", "result.hour == obj.hour and result.minute == obj.minute and result.second == obj.second"),
+                 ("nanoseconds-are-the-microseconds-times-1000", "result.fractional_second == obj.microsecond * 1000"),
+                 ("same-offset", OFF)],
+        raises={}, properties=PR))
+    db.add(Contract(
+        f"{DT}:XmlDate.from_date", params={"cls": cls_of("XmlDate"), "obj": "opaque:StdDateTime"},
+        ensures=[("same-calendar-fields", "result.year == obj.year and result.month == obj.month and result.day == obj.day")],
+        raises={}, properties=PR))
+    db.add(Contract(
+        f"{DT}:XmlDate.from_datetime", params={"cls": cls_of("XmlDate"), "obj": "opaque:StdDateTime"},
+        ensures=[("same-calendar-fields", "result.year == obj.year and result.month == obj.month and result.day == obj.day"),
+                 ("same-offset", OFF)],
+        raises={}, properties=PR))
